@@ -13,7 +13,7 @@ def main():
     N.in_tmp_dir()
     from emu_mps import MPSBackend
     findings = []
-    for unit in (U.permute_results_unit, U.init_unit):
+    for unit in (U.permute_results_unit, U.init_unit, U.tag_suffix_unit, U.tag_suffix_run):
         m = unit()
         if m:
             findings.append(m)
